@@ -56,6 +56,7 @@ type c12Hist struct {
 	byHex  map[string]*c12Gauge
 	order  []*c12Gauge
 	trace  []map[string]interface{}
+	quiet  bool
 	height int64
 	now    time.Time
 	maxT   time.Time
@@ -154,7 +155,9 @@ func (h *c12Hist) afterCreate(kind string, direct bool, pre, post c12Obs, wantEn
 			changed++
 		}
 	}
-	desc["pre"], desc["post"] = c12ObsJSON(pre), c12ObsJSON(post)
+	if !h.quiet {
+		desc["pre"], desc["post"] = c12ObsJSON(pre), c12ObsJSON(post)
+	}
 	h.trace = append(h.trace, desc)
 	if changed == 0 {
 		// no record changed: the gauge is the listed one whose account received the deposit
@@ -221,10 +224,12 @@ func (h *c12Hist) afterCreate(kind string, direct bool, pre, post c12Obs, wantEn
 		g.InQuant = false
 	}
 	// ---- case
-	g0, e0, p0 := h.printObs(pre)
-	g1, e1, p1 := h.printObs(post)
-	term := fmt.Sprintf("CCreate %s %s %s %s %s %s %s %s %s %s %s", cBool(direct), cN(g.Idx), cZbig(c12Ns(h.now)), cZbig(c12Ns(wantEnd)), c12Coins(dep), g0, e0, p0, g1, e1, p1)
-	r.Case("hist", term, desc)
+	if !h.quiet {
+		g0, e0, p0 := h.printObs(pre)
+		g1, e1, p1 := h.printObs(post)
+		term := fmt.Sprintf("CCreate %s %s %s %s %s %s %s %s %s %s %s", cBool(direct), cN(g.Idx), cZbig(c12Ns(h.now)), cZbig(c12Ns(wantEnd)), c12Coins(dep), g0, e0, p0, g1, e1, p1)
+		r.Case("hist", term, desc)
+	}
 	r.Count(fmt.Sprintf("create:%s:%s:%d:%v", kind, dep, durNs, existed), !dep.IsZero())
 	r.Hist("ops", "create/"+kind)
 	if existed {
@@ -729,7 +734,8 @@ func runC12(r *RunCtx) error {
 		}
 		h.txBlock(6 * time.Second)
 		end := h.now.Add(3000 * time.Second)
-		for i := 0; i < 125; i++ {
+		for i := 0; i < 1100; i++ { // also more than any round number a loop over the gauges might stop at
+			h.quiet = i >= 125 // the later creations are monitored but not written out state by state
 			if i%32 == 31 {
 				h.txBlock(6 * time.Second)
 			}
